@@ -21,7 +21,8 @@ A table is a JSON-able list of option dicts
     {"name": "SocksPort", "type": "PortLines", "init": [...], "default": [...]|None,
      "lines_type": "Virtual", "dep_type": "Dependant"}
 ``init`` = values Tor holds ([] = unset / empty), ``default`` = what config/defaults lists
-for the option (None = not listed).
+for the option (None = not listed); a PortLines option may carry ``hidden`` = values of its
+non-persistent twin ``__FooPort``.
 """
 from .core import FakeTor, ConfigStore, Link, OK
 from ..refs import reply as R
@@ -262,6 +263,8 @@ class ConfTor(FakeTor):
             else:
                 options[n] = t
             values[n] = list(o["init"])
+            if t == PORTLINES and o.get("hidden"):
+                values["__" + n] = list(o["hidden"])      # e.g. Tor Browser's launcher sets __SocksPort
             if o.get("default"):
                 defaults[n] = list(o["default"])
         store = LenientStore(options, values, defaults)
